@@ -278,7 +278,10 @@ fn corpus(ctx: &mut Ctx, n: usize) -> Vec<Case> {
         let sp = Spelling::random(&mut rng);
         let mut s = sign_and_spell(&l, &mut rng, &sp, now);
         match i % 9 {
-            1 => s.case.uri.push_str("&q=%2"),
+            1 => s.case.uri.push_str(if s.case.uri.contains('?') { "&q=abc%2" } else { "?q=abc%2" }),
+            3 => s.case.uri.push_str(if s.case.uri.contains('?') { "&Marker=abc%zz&k=v" } else { "?Marker=abc%zz&k=v" }),
+            6 => { s.case.uri = s.case.uri.replacen('/', "/seg%4/", 1); }
+            7 => { if s.case.fold { s.case.body.extend_from_slice(b"&Name=abc%zz"); } }
             2 => s.case.region = "r2".into(),
             4 => { s.case.prefixes = vec!["x-amz-".into(), "my-".into(), "a".into()]; s.case.ifreq = vec!["Accept".into()]; }
             5 => s.case.headers.retain(|(n, _)| !n.eq_ignore_ascii_case("host")),
@@ -296,9 +299,14 @@ pub fn c18(ctx: &mut Ctx) {
     let jobs: Vec<Job> = cases.iter().map(|c| job(c.clone(), Expect::Any, "c18", "")).collect();
     run_jobs(ctx, "VALIDATE", jobs);
     let reference: Vec<String> = cases.iter().map(outcome_line).collect();
-    // (a) repetition in this process
+    // (a) repetition in this process, each time in another order (so that every validation is preceded by
+    // a different history of accepted, refused and malformed requests on this thread)
+    let mut order_rng = ctx.rng.fork();
     for _ in 0..3 {
-        for (c, r) in cases.iter().zip(reference.iter()) {
+        let mut order: Vec<usize> = (0..cases.len()).collect();
+        order_rng.shuffle(&mut order);
+        for &i in &order {
+            let (c, r) = (&cases[i], &reference[i]);
             ctx.rep.count("evaluations");
             ctx.rep.count("evaluations.repeat");
             let again = outcome_line(c);
